@@ -818,6 +818,12 @@ class Interp:
                 return nf.fn("floordiv", L, R)
             if isinstance(op, (ast.BitAnd, ast.BitOr, ast.BitXor, ast.LShift, ast.RShift)):
                 return nf.fn(type(op).__name__.lower(), L, R)
+        for o in (l, r):
+            h = getattr(o, "sim_binop", None)       # rule-supplied abstract values (index-level tensors, layouts)
+            if h is not None:
+                res = h(op, l, r)
+                if res is not NotImplemented:
+                    return res
         raise self.err(f"binary operator {type(op).__name__} on {l!r} and {r!r}", node, fi)
 
     def _e_Compare(self, e, env, fi):
